@@ -4,7 +4,7 @@
 From Coq Require Import List NArith ZArith Bool.
 From Coq Require Extraction.
 From Coq Require Import ExtrOcamlBasic.
-From HV Require Import Model.Big Model.Rat Model.NumText Model.Chars Model.Parse Spec.Grammar Model.Exec Spec.Lang Model.Opt Model.Repl Model.Debug Model.Utf8 Model.Cli Model.Compile.
+From HV Require Import Model.Big Model.Rat Model.NumText Model.Chars Model.Parse Spec.Grammar Model.Exec Spec.Lang Model.Opt Model.Repl Model.Debug Model.Utf8 Model.Cli Model.Compile Model.Listing.
 Extraction "model.ml"
   Big.from_vec Big.bminus Big.bneg Big.badd Big.bsub Big.bmul Big.bdiv Big.brem Big.bgcd Big.beq Big.bcmp
   Big.lval Big.bone Big.bnew Big.new_pre_fix Big.is_zero Big.to_int Big.wfb Big.bval
@@ -20,4 +20,5 @@ Extraction "model.ml"
   Repl.repl_run
   Debug.debug_run
   Cli.run_cli Cli.check_cli Utf8.encode Utf8.decode
+  Listing.check_listing Listing.listing_text
   Compile.compile_prog Compile.ir_run Compile.dispatch_tree Compile.tree_select.
